@@ -27,7 +27,7 @@ ASSUMPTIONS = [
     'iteration is judged on complete iterations only; whether it consumes the rows is left open (both PEP 249 and beanquery semantics accepted)',
     'type_code is only required to be non-None and equal for equal datatypes within a run',
 ]
-PROBES = ['executemany', 'executemany_with_arraysize_set', 'fetchmany_beyond_remainder', 'fetch_after_exhaustion', 'reexecute_with_rows_pending', 'failed_execute_then_fetch',
+PROBES = ['caller_mutates_returned_list', 'executemany', 'executemany_with_arraysize_set', 'fetchmany_beyond_remainder', 'fetch_after_exhaustion', 'reexecute_with_rows_pending', 'failed_execute_then_fetch',
           'rowcount_after_partial_fetch', 'description_slice', 'two_cursors_both_pending', 'empty_result', 'fetch_before_execute',
           'arraysize_default_used', 'iterate_after_partial_fetch']
 
@@ -90,7 +90,7 @@ def generate(rng, tier, run):
             ops.append({'op': 'conn_execute', 'stmt': rng.randrange(len(st))})
         w = {'execute': 5, 'fetchone': 6, 'fetchmany': 7, 'fetchall': 2, 'iter': 1.5, 'arraysize': 1.5,
              'rowcount': 3, 'rownumber': 3, 'description': 2, 'desc_probe': 3, 'close': 0.3,
-             'setinputsizes': 0.3, 'setoutputsize': 0.3, 'conn_execute': 0.5, 'executemany': 0.8}
+             'setinputsizes': 0.3, 'setoutputsize': 0.3, 'conn_execute': 0.5, 'executemany': 0.8, 'mutate_result': 0.8}
         # swarm: switch some op kinds off per client
         for kname in list(w):
             if kname not in ('execute', 'fetchmany') and rng.random() < 0.2:
@@ -108,6 +108,8 @@ def generate(rng, tier, run):
                         op['fault'] = {'kind': 'storage', 'table': 't0', 'row': rng.randint(0, max(0, nrows))}
                     elif f < 0.12:
                         op['fault'] = {'kind': rng.choice(['udf', 'cancel']), 'k': 0, 'n': rng.randint(0, max(0, nrows))}
+            elif kname == 'mutate_result':
+                op['how'] = rng.choice(['clear', 'append', 'reverse', 'pop'])
             elif kname == 'executemany':
                 op['sets'] = [rng.randint(0, nrows + 2) for _ in range(rng.choice([0, 1, 2, 3]))]
             elif kname == 'fetchmany':
@@ -249,6 +251,8 @@ def execute(case, keep_log=False):
         had_exec = [False] * ncl
         typecodes = {}
         nontrivial = False
+        retained = []          # (client, op index, the list object a fetch returned, its canonical snapshot)
+        last_list = [None] * ncl
         order = sim.schedule_order(case.get('schedule', []), [len(c['ops']) for c in case['clients']])
 
         def violation(oracle, ci, oi, op, expected, observed, sigx=''):
@@ -333,6 +337,22 @@ def execute(case, keep_log=False):
             if k == 'execute':
                 do_execute(ci, oi, op, False)
                 continue
+            if k == 'mutate_result':
+                # what a fetch returned belongs to the caller: changing it must not reach the cursor
+                lst = last_list[ci]
+                log.add('mutate_result', ci, op.get('how'), lst is not None)
+                if isinstance(lst, list):
+                    S.probes['caller_mutates_returned_list'] += 1
+                    retained[:] = [r_ for r_ in retained if r_[2] is not lst]
+                    if op['how'] == 'clear':
+                        lst.clear()
+                    elif op['how'] == 'append':
+                        lst.append(('bogus',))
+                    elif op['how'] == 'reverse':
+                        lst.reverse()
+                    elif lst:
+                        lst.pop()
+                continue
             if k == 'executemany':
                 # the statement is executed once per parameter set; the cursor then holds the last result;
                 # with no parameter set nothing is executed.  arraysize is a property of the cursor, not of a result.
@@ -404,11 +424,15 @@ def execute(case, keep_log=False):
                 elif k == 'fetchmany':
                     r_ = cur.fetchmany() if op.get('n') is None else cur.fetchmany(op['n'])
                     obs = canon_rows(r_)
+                    last_list[ci] = r_
+                    retained.append((ci, oi, r_, obs))
                     if not isinstance(r_, (list, tuple)):
                         violation('fetch-returns-sequence', ci, oi, op, 'list', type(r_).__name__)
                 elif k == 'fetchall':
                     r_ = cur.fetchall()
                     obs = canon_rows(r_)
+                    last_list[ci] = r_
+                    retained.append((ci, oi, r_, obs))
                     if not isinstance(r_, (list, tuple)):
                         violation('fetch-returns-sequence', ci, oi, op, 'list', type(r_).__name__)
                 elif k == 'iter':
@@ -466,6 +490,15 @@ def execute(case, keep_log=False):
                 for s in alts:
                     seen[(s.pos, s.total, s.cleared, s.rows is None, s.arraysize, core.jdump(s.desc))] = s
                 models[ci] = list(seen.values())
+        # rows handed out by earlier fetch calls stay what they were, whatever the cursor did afterwards
+        for (ci, oi, lst, snap) in retained:
+            try:
+                now = canon_rows(lst)
+            except Exception:
+                now = 'unreadable'
+            if now != snap:
+                violation('returned-rows-changed-later', ci, oi, case['clients'][ci]['ops'][oi], snap[:6], now[:6] if isinstance(now, list) else now)
+                break
         stats['nontrivial'] = nontrivial
     finally:
         world.set_current(None)
